@@ -46,11 +46,31 @@ func setup() *world {
 		return w
 	}
 	w.p = p
+	// two bystander programs declare the same metric names, one registered before and one after the
+	// program under test, so that the per-name metric lists have three entries and the reload edits the middle
+	reg := func(name string) {
+		q, err := mt.Load(name, src(""), mt.Opts{})
+		if err != nil {
+			w.errs = append(w.errs, err.Error())
+			return
+		}
+		for _, m := range q.VM.Metrics {
+			if err := w.store.Add(m); err != nil {
+				w.errs = append(w.errs, err.Error())
+			}
+			if m.Name == "c" {
+				d, _ := m.GetDatum("a")
+				datum.SetInt(d, 7, time.Now().Add(-time.Minute))
+			}
+		}
+	}
+	reg("before")
 	for _, m := range p.VM.Metrics {
 		if err := w.store.Add(m); err != nil {
 			w.errs = append(w.errs, err.Error())
 		}
 	}
+	reg("zafter")
 	// pre-populate: four tuples of c (over the limit), one of them old and marked for expiry
 	old := time.Now().Add(-3 * time.Hour)
 	for i, k := range []string{"z", "y", "x", "a"} {
@@ -140,7 +160,7 @@ var activities = []activity{
 	}},
 }
 
-var varzC = regexp.MustCompile(`(?m)^c\{k=a,[^}]*\} (\d+)$`)
+var varzC = regexp.MustCompile(`(?m)^c\{k=a,prog=prog,[^}]*\} (\d+)$`)
 
 func main() {
 	vrt.RaceDetect = true
@@ -206,7 +226,7 @@ func main() {
 				var got int64 = -1
 				for _, ml := range w.store.Metrics {
 					for _, m := range ml {
-						if m.Name == "c" {
+						if m.Name == "c" && m.Program == "prog" {
 							if lv := m.FindLabelValueOrNil([]string{"a"}); lv != nil {
 								got = datum.GetInt(lv.Value)
 							}
@@ -215,6 +235,21 @@ func main() {
 				}
 				if got != wantA {
 					return fmt.Sprintf("lost-update %s c[a]=%d", s.name, got), fmt.Sprintf("scenario %s: c[a] = %d after the run, %d increments on top of 40 were issued", s.name, got, wantA-40), "lost-update"
+				}
+				// one export pass shows every program's series exactly once, also while a reload edits the store
+				if out, ok := w.outs["varz"]; ok {
+					for _, pr := range []string{"before", "prog", "zafter"} {
+						if n := strings.Count(out, "c{k=a,prog="+pr+","); n != 1 {
+							return fmt.Sprintf("export-pass %s varz prog=%s x%d", s.name, pr, n), fmt.Sprintf("one /varz pass lists the series c{k=a} of program %q %d times (the store holds it once):\n%s", pr, n, out), "bad-export-pass"
+						}
+					}
+				}
+				if out, ok := w.outs["graphite"]; ok {
+					for _, pr := range []string{"before", "prog", "zafter"} {
+						if n := strings.Count(out, pr+".c.k.a "); n != 1 {
+							return fmt.Sprintf("export-pass %s graphite prog=%s x%d", s.name, pr, n), fmt.Sprintf("one /graphite pass lists c.k.a of program %q %d times", pr, n), "bad-export-pass"
+						}
+					}
 				}
 				// every exported value of c[a] existed at some point
 				if out, ok := w.outs["varz"]; ok {
